@@ -18,7 +18,8 @@ static rc::Gen<Op> c14_op()
 	    {7, op_gen(REPLY, conn, rng(0, 4), rng(0, 2), val, zero(), zero(), jn)},
 	    {8, op_gen(ADVANCE, zero(), rng(0, 13), zero(), zero(), zero(), zero(), jn)},
 	    {1, op_gen(CONNECT, zero(), rng(0, 3), rng(0, 4), zero(), zero(), zero(), nojoin())},
-	    {2, op_gen(END, conn, rng(0, 2), zero(), zero(), zero(), zero(), jn)},
+	    {3, op_gen(END, conn, rng(0, 3), zero(), zero(), zero(), zero(), jn)},
+	    {3, op_gen(REMOVE, conn, path, zero(), aim, zero(), idmode(), jn)},   // the owner withdraws an element while requests routed to it are in flight
 	});
 }
 
